@@ -53,6 +53,7 @@ type Node struct {
 type bridgeState struct {
 	text          string
 	haveText      bool
+	filled        bool // the entry point called Fill on the token stream: the whole text is lexed before the parse
 	lexListeners  []value
 	parsListeners []value
 	outcome       *ParseResult // nondeterministic mode: outcome chosen by the harness
@@ -98,7 +99,7 @@ func (i *interpreter) bridgeExternal(fn *ssa.Function, name string) externalFn {
 			if !ok {
 				panic(unsupported{"symbolic rule text"})
 			}
-			i.bridge.text, i.bridge.haveText = s, true
+			i.bridge.text, i.bridge.haveText, i.bridge.filled = s, true, false
 			i.bridge.lexListeners, i.bridge.parsListeners = nil, nil
 			return i.deepZeroPtr(res.At(0).Type(), 0, "")
 		}
@@ -145,6 +146,8 @@ func (i *interpreter) bridgeExternal(fn *ssa.Function, name string) externalFn {
 			}
 			return nil
 		}
+	case short == "Fill":
+		return func(fr *frame, a []value) value { fr.i.bridge.filled = true; return nil }
 	case short == "Primary":
 		return func(fr *frame, a []value) value { return iface{} }
 	case short == "Walk":
@@ -168,6 +171,9 @@ func (i *interpreter) callMethod(fr *frame, recv value, name string, args ...val
 	return callSSA(i, fr, 0, fn, append([]value{itf.v}, args...), nil)
 }
 
+// FillMark in front of a text handed to Bridge.Parse asks for the token stream to be filled before the parse.
+const FillMark = "\x00fill\x00"
+
 func (i *interpreter) bridgeWalk(fr *frame, listener value) {
 	b := i.bridge
 	if !b.haveText {
@@ -181,7 +187,11 @@ func (i *interpreter) bridgeWalk(fr *frame, listener value) {
 			panic(unsupported{"no parser bridge configured"})
 		}
 		var err error
-		pr, err = i.cfg.Bridge.Parse(b.text)
+		t := b.text
+		if b.filled {
+			t = FillMark + t
+		}
+		pr, err = i.cfg.Bridge.Parse(t)
 		if err != nil {
 			panic(unsupported{"parser bridge failed: " + err.Error()})
 		}
